@@ -108,6 +108,11 @@ func (fe functionExpr) CompletionAtPos(ctx context.Context, pos hcl.Pos) []lang.
 	case *hclsyntax.FunctionCallExpr:
 		if eType.NameRange.ContainsPos(pos) {
 			prefixLen := pos.Byte - eType.NameRange.Start.Byte
+			if prefixLen > len(eType.Name) {
+				// the name range of a namespaced function written
+				// with blanks (a :: b) is longer than the name
+				prefixLen = len(eType.Name)
+			}
 			prefix := eType.Name[0:prefixLen]
 			editRange := eType.Range()
 			return fe.matchingFunctions(prefix, editRange)
